@@ -676,6 +676,12 @@ def m_num(ex, f, a):
         r = x - y if op == 'saturating_sub' else x + y
         if sym: return z3.If(r < lo, lo, z3.If(r > hi, hi, r))
         return min(max(r, lo), hi)
+    if op == 'from_str_radix':
+        t = pystr(ex.deref(a[0])); radix = a[1]
+        try: v = int(t, radix)
+        except ValueError: return err(Opaque('ParseIntError'))
+        if t[:1] in '+-' and len(t) == 1: return err(Opaque('ParseIntError'))
+        return ok(v) if lo <= v <= hi else err(Opaque('ParseIntError'))
     if sym: raise Unsupported('symbolic ' + f)
     if op == 'wrapping_add': return wrap_int(x + y, ty)
     if op == 'wrapping_sub': return wrap_int(x - y, ty)
